@@ -17,7 +17,7 @@
      <id> GT <tbl> <n> code1 cid1 ...   the pairs of cmap.All, in order ; GN <inst> <tbl> <cid0w> ;
      GE <inst> <cid> <text> <w> ; GG <inst> <cid> <text> ; GC <inst> code1 code2 ...
    /Encoding (Encoding.v)
-     <id> EB <win|mac|expert|std> n0 ... n255      a base table
+     <id> EB <win|mac|expert|std> n0:v0 ... n255:v255   a base table, v = names.IsValid
      <id> EW <bis> <k> c1 name1 v1 ...             AsPDFSimple of the encoding {c -> name}, v = names.IsValid(name); then ExtractSimple
      <id> ER <nse> <obj> <k> c1..ck                ExtractSimple of obj = nil | named <b> | dict <b|-> <m> item... (item = I<int> | N<hex>:<v>)
      <id> E3W <k> c1 name1 ... ; E3R <m> item... <k> c1..ck     the same for Type 3
@@ -32,6 +32,7 @@ let simple : (string, SimpleEnc.st) Hashtbl.t = Hashtbl.create 64
 let tables : (string, (BinNums.coq_N list * BinNums.coq_N) list) Hashtbl.t = Hashtbl.create 16
 let fromcmap : (string, (string * CidEnc.fst_)) Hashtbl.t = Hashtbl.create 64
 let base_tables : (string, BinNums.coq_N list array) Hashtbl.t = Hashtbl.create 4
+let base_valid : (string, bool) Hashtbl.t = Hashtbl.create 1024   (* names.IsValid of the names in the base tables *)
 let utf8 : (string, CidEnc.ust) Hashtbl.t = Hashtbl.create 64
 let fixed : (string, CidEnc.fst_) Hashtbl.t = Hashtbl.create 64
 
@@ -107,6 +108,13 @@ let parse_ditems toks (vt : (string, bool) Hashtbl.t) =
       | [h; v] -> Hashtbl.replace vt h (v = "1"); Encoding.DName (bytes_of_hex h)
       | _ -> failwith "bad item"
     end) toks
+
+(* The CID -> code table of NewFromCMap.  The code as it is keeps the last pair of
+   cmap.All for every CID, also when a later pair re-maps its code (CidEnc.tbl_all;
+   finding cidenc-fromcmap:code-remapped-by-child-cmap, theorem fromcmap_inverse_refuted).
+   Once NewFromCMap is repaired to store only codes which the CMap maps to the CID,
+   replace this by CidEnc.tbl_all_sound (theorem fromcmap_sound_first_wins). *)
+let cid_to_code = CidEnc.tbl_all
 
 let uinfo_str (i : CidEnc.uinfo) = Printf.sprintf "%s:%s:%s" (sn i.ui_cid) (sz i.ui_w) (hex i.ui_text)
 
@@ -205,13 +213,13 @@ let () =
     | id :: "GE" :: inst :: c :: t :: [w] ->
       let (tbl, s) = Hashtbl.find fromcmap inst in
       let l = Hashtbl.find tables tbl in
-      let (s', r) = CidEnc.fencode (CidEnc.tbl_all l) s (n_of_string c) (bytes_of_hex t) (z_of_string w) in
+      let (s', r) = CidEnc.fencode (cid_to_code l) s (n_of_string c) (bytes_of_hex t) (z_of_string w) in
       Hashtbl.replace fromcmap inst (tbl, s');
       Printf.printf "%s %s\n" id (match r with CidEnc.FOk code -> "ok " ^ hex code | _ -> "err")
     | id :: "GG" :: inst :: c :: [t] ->
       let (tbl, s) = Hashtbl.find fromcmap inst in
       let l = Hashtbl.find tables tbl in
-      Printf.printf "%s %s\n" id (match CidEnc.fget_code (CidEnc.tbl_all l) s (n_of_string c) (bytes_of_hex t) with
+      Printf.printf "%s %s\n" id (match CidEnc.fget_code (cid_to_code l) s (n_of_string c) (bytes_of_hex t) with
         | Some [] -> "zero" | Some code -> hex code | None -> "none")
     | id :: "GC" :: inst :: codes ->
       let (tbl, s) = Hashtbl.find fromcmap inst in
@@ -219,7 +227,9 @@ let () =
       Printf.printf "%s %d %s\n" id (Stdlib.List.length codes)
         (join (Stdlib.List.map (fun code -> uinfo_str (CidEnc.fget (CidEnc.tbl_rev l) s (bytes_of_hex code))) codes))
     | id :: "EB" :: which :: names ->
-      Hashtbl.replace base_tables which (Array.of_list (Stdlib.List.map bytes_of_hex names));
+      let split t = match Stdlib.String.split_on_char ':' t with
+        | [h; v] -> Hashtbl.replace base_valid h (v = "1"); h | _ -> failwith "bad EB" in
+      Hashtbl.replace base_tables which (Array.of_list (Stdlib.List.map (fun t -> bytes_of_hex (split t)) names));
       Printf.printf "%s table\n" id
     | id :: "EW" :: bis :: _k :: rest ->
       let tbl = Hashtbl.create 64 and vt = Hashtbl.create 64 in
@@ -228,7 +238,8 @@ let () =
         | [] -> () | _ -> failwith "bad EW" in
       go rest;
       let e c = match Hashtbl.find_opt tbl (int_of_n c) with Some n -> n | None -> [] in
-      let valid n = match Hashtbl.find_opt vt (hex n) with Some v -> v | None -> false in
+      let valid n = match Hashtbl.find_opt vt (hex n) with Some v -> v | None ->
+        (match Hashtbl.find_opt base_valid (hex n) with Some v -> v | None -> false) in
       let bis = bis = "1" in
       let o = Encoding.as_pdf_simple (base "win") (base "mac") (base "expert") (base "std") e bis in
       let cs = Stdlib.List.sort compare (Hashtbl.fold (fun c _ acc -> c :: acc) tbl []) in
@@ -248,7 +259,8 @@ let () =
           let (its, r') = take (int_of_string m) r in
           (Encoding.ODict ((if b = "-" then None else Some (basename_of b)), parse_ditems its vt), r')
         | _ -> failwith "bad ER" in
-      let valid n = match Hashtbl.find_opt vt (hex n) with Some v -> v | None -> false in
+      let valid n = match Hashtbl.find_opt vt (hex n) with Some v -> v | None ->
+        (match Hashtbl.find_opt base_valid (hex n) with Some v -> v | None -> false) in
       let cs = match rest with _k :: cs -> cs | [] -> [] in
       let f = Encoding.extract_simple (base "win") (base "mac") (base "expert") (base "std") valid o (nse = "1") in
       Printf.printf "%s %s\n" id (match cs with [] -> "-" | _ -> join (Stdlib.List.map (fun c -> c ^ ":" ^ hex (f (n_of_string c))) cs))
